@@ -395,8 +395,8 @@ def fast_evaluate(prop, imports, fam, to_coq, cases, what=("check", "oracle"), t
         if f.startswith(tag + "_both"):
             os.unlink(os.path.join(d, f))
     files = []
-    if shard is None:       # two waves of coqc processes
-        shard = max(200, -(-len(terms) // (2 * vlib.NPROC)))
+    if shard is None:       # two waves of coqc processes, but no shard so large that a loaded machine times it out
+        shard = min(3000, max(200, -(-len(terms) // (2 * vlib.NPROC))))
     for si, start in enumerate(range(0, len(terms), shard)):
         path = os.path.join(d, "%s_both_%04d.v" % (tag, si))
         with open(path, "w") as f:
@@ -410,7 +410,7 @@ def fast_evaluate(prop, imports, fam, to_coq, cases, what=("check", "oracle"), t
     res = {w: [] for w in what}
     err = None
     with cf.ThreadPoolExecutor(max_workers=vlib.NPROC) as ex:
-        for (start, path), (rc, out) in zip(files, ex.map(lambda sp: vlib._coqc(sp[1], 900), files)):
+        for (start, path), (rc, out) in zip(files, ex.map(lambda sp: vlib._coqc(sp[1], 3000), files)):
             if "done_marker_C20" not in out:
                 err = "coqc failed on %s (rc=%s): %s" % (path, rc, out[-1500:])
                 continue
